@@ -13,7 +13,8 @@
    Error rendering returns for EVERY definition (C04_error_rendering_returns: the evaluator reports only
    messages whose positions are items of the line; Message::render then has a document).
    Not theorems: (a) adjacent groups with subcommands as members, or
-   without a first item (that one panics: known finding) -- their FUEL/panic outcomes are explicit in the
+   without a first item (that one panics; check_invariants reports it since fix 1225acf unless the group is hidden:
+   known finding) -- their FUEL/panic outcomes are explicit in the
    model and compared with the implementation, (b) the panic sites of completion
    (compared per run), (c) purity -- Gallina functions are pure by construction; the implementation is
    re-run on the same OptionParser and after other operations (driver modes `twice`, `history`). *)
